@@ -47,7 +47,9 @@ PROPS = {
                 'resolve(cut molecule) == original molecule == resolve(uncut), checked against an independent valence table, over all small molecules '
                 '(<= 4 heavy atoms quick) x all connected partitions x renderings x base-graph orders.', _T_EXT),
     'C02': _hyb('C02', 'merge_graphs (consecutive new keys in template order, every template attribute copied, membership index, template edges and their '
-                'attributes mapped, old part and template untouched)',
+                'attributes mapped, old part and template untouched), resolve_disconnected_molecule (every real coarse node gets a fresh fragment graph whose '
+                'nodes are fine nodes recording exactly that coarse node; virtual nodes untouched) and rebuild_h_atoms (existing atoms keep membership/name/weight, '
+                'completed hydrogens carry those of a bonded atom; pysmiles assumed)',
                 'membership bi-implication, covering and template-copy isomorphism as run-time postconditions of every resolve() on generated base graphs x fragment sets, all levels.', _T_EXT),
     'C03': _hyb('C03', 'ALL clauses at the point of bond creation: compatible == spec for both conventions; match_bonding_descriptors returns a compatible pair '
                 'present on the two graphs and raises LookupError iff none exists; edges_from_bonding_descrpt adds at most `order` bonds per base-graph edge (none for 0), '
@@ -66,7 +68,8 @@ PROPS = {
                 'valence filling happens inside pysmiles (trusted).', _T_EXT),
     'C10': _hyb('C10', 'the compatibility relation used for the shared-atom pairs (compatible)',
                 'resolve(overlapping) isomorphic to resolve(disjoint), one atom fewer per shared pair, membership of merged atoms, over G2 with any subset of cuts shared.', _T_EXT),
-    'C11': _hyb('C11', 'edges_from_bonding_descrpt (range(order): no bond for order 0; the fragment graph of a virtual node is never read) and merge_graphs',
+    'C11': _hyb('C11', 'edges_from_bonding_descrpt (range(order): no bond for order 0; the fragment graph of a virtual node is never read), '
+                'resolve_disconnected_molecule (membership = coarse node key whatever precedes it; virtual node skipped iff all its edges are order 0, else SyntaxError) and merge_graphs',
                 'inserting virtual nodes / zero-order edges anywhere leaves the fine molecule and every other coarse node mapping unchanged; fragment-less node with order >= 1 raises.', _T_EXT),
     'C12': _hyb('C12', 'merge_graphs frame: the template graph is never modified, copied attributes are deep copies (frame obligations), keys consecutive',
                 'canonical dump equality across calls, fragment-definition permutations, the three constructors, shared dictionaries and PYTHONHASHSEED values (subprocesses).', _T_EXT),
@@ -85,6 +88,8 @@ PROPS = {
                 'RDKit round trip with and without conformer, bonded atoms at bonding distance after embedding for all relabelings, weighted mean and translation equivariance.', _T_EXT),
     'C19': _bnd('C19', 'one finite 2D position per node, bonded nodes distinct, mean bond length == default_bond, over graph families x bond lengths x relabelings x seeds.',
                 'Layout optimisers are networkx floating-point code (trusted).', _T_EXT),
-    'C20': _bnd('C20', 'fault injection at every position of generated strings: documented exception type raised, no graph returned.',
-                'The scanners are outside the accepted subset.', _T_EXT),
+    'C20': _hyb('C20', 'resolve_disconnected_molecule raises SyntaxError IF AND ONLY IF some fragment-less node takes part in a bond of order != 0 '
+                '(and never builds a fragment graph for such a node)',
+                'fault injection at every position of generated strings (dangling ring, duplicate edge, missing fragment, a=b=c, too many positionals, '
+                'non-numeric charge/weight): documented exception type raised, no graph returned; the scanners are outside the accepted subset.', _T_EXT),
 }
